@@ -31,7 +31,10 @@ type Server struct {
 	Name     spec.ServerName
 	Keys     []*Key
 	ValidFor time.Duration // valid_until_ts of a key response = response time + ValidFor
-	nextID   int
+	// OmitValidUntil models a server whose key response carries no (a zero)
+	// valid_until_ts: its current keys have no validity period at all.
+	OmitValidUntil bool
+	nextID         int
 }
 
 func newKey(t *sim.Tape, id gmsl.KeyID, now time.Time) *Key {
@@ -91,6 +94,9 @@ func (s *Server) KeyResponse(now time.Time) gmsl.ServerKeys {
 		VerifyKeys:    map[gmsl.KeyID]gmsl.VerifyKey{},
 		OldVerifyKeys: map[gmsl.KeyID]gmsl.OldVerifyKey{},
 		ValidUntilTS:  spec.AsTimestamp(now.Add(s.ValidFor)),
+	}
+	if s.OmitValidUntil {
+		f.ValidUntilTS = 0
 	}
 	for _, k := range s.Keys {
 		if k.From.After(now) {
